@@ -63,15 +63,15 @@ Qed.
 Print Assumptions c05_bounded_step.
 
 (* --- refutations: the pinned tree, site by site --------------------------------------------------- *)
-Definition cfg_all : grp_cfg := mk_gcfg true true true true true true None false.
-Definition cfg_all_dummy : grp_cfg := mk_gcfg true true true true true true (Some 0) false.
+Definition cfg_all : grp_cfg := mk_gcfg true true true true true true None false true.
+Definition cfg_all_dummy : grp_cfg := mk_gcfg true true true true true true (Some 0) false true.
 Definition vmsg (ts : N) (p : bytes) : gev := GPub (mk_mmsg t_video ts p).
 Definition amsg (ts : N) (p : bytes) : gev := GPub (mk_mmsg t_audio ts p).
 
 (* all fixes but one *)
 Definition fx_but (k : N) : fixes :=
   mk_fixes (negb (k =? 1)) (negb (k =? 2)) (negb (k =? 3)) (negb (k =? 4)) (negb (k =? 5)) (negb (k =? 6))
-           (negb (k =? 7)) (negb (k =? 8)) (negb (k =? 9)) (negb (k =? 10)) (negb (k =? 11)).
+           (negb (k =? 7)) (negb (k =? 8)) (negb (k =? 9)) (negb (k =? 10)) (negb (k =? 11)) (negb (k =? 12)).
 
 (* F-21: one-byte payloads and short enhanced-rtmp headers; every fix is needed *)
 Theorem c05_pinned_refuted :
@@ -135,9 +135,18 @@ Theorem c05_parse_sps_total : forall sps ctx,
 Proof. intros sps ctx. split; [exact (parse_sps_avc_total sps)|exact (hevc_parse_sps_total sps ctx)]. Qed.
 Print Assumptions c05_parse_sps_total.
 
+(* F-45 from the publish side (before C13's fix of IsAvcBoundary): out_wait_key_frame_flag, an avc stream whose SDP is
+   known, an rtsp consumer in PLAY waiting for a GOP start, then an inter frame carrying a one-byte nal of type 28:
+   Group.feedRtpPacket -> IsAvcBoundary reads b[1] of the one-byte RTP body; processed after the fix *)
+Theorem c05_pinned_refuted_rtsp_boundary :
+  let h := [vmsg 0 avc_sh_sample; amsg 0 [175; 0; 18; 16]; GJoinRtsp; vmsg 40 [39; 1; 0; 0; 0; 0; 0; 0; 1; 28]] in
+  snd (m_grun (fx_but 12) cfg_all h) = Some s_avc_boundary /\ m_grun fixes_all cfg_all h = (3, None).
+Proof. cbv zeta. split; vm_compute; reflexivity. Qed.
+Print Assumptions c05_pinned_refuted_rtsp_boundary.
+
 (* RtspRemuxerAddSpsPps2KeyFrameFlag = true (never set by lalserver): a 6-byte key frame is sliced at [9:] *)
 Theorem c05_add_flag_refuted :
-  snd (m_grun fixes_all (mk_gcfg true true true true true true None true)
+  snd (m_grun fixes_all (mk_gcfg true true true true true true None true true)
          [vmsg 0 avc_sh_sample; amsg 0 [175; 0; 18; 16]; vmsg 40 [23; 1; 0; 0; 0; 0]]) = Some s_rtsp_remux9.
 Proof. vm_compute; reflexivity. Qed.
 Print Assumptions c05_add_flag_refuted.
